@@ -22,6 +22,7 @@ def gen_step(ctx):
 def requests(ctx, side, codes):
     """yield (gender, event, k, age, esaa, value) tuples"""
     rng = ctx.rng
+    ag = json_ages(); ages_tab = {'m': ag['m'], 'f': ag['f']}; ages_list = ag['ages']
     rows = [AC.Row(o) for o in [dict(gender=r['gender'], event_code=r['event_code'], A=r['A'], Z=r['Z'], X=r['X']) for r in side['table']]]
     out = []
     quick = ctx.quick()
@@ -54,6 +55,21 @@ def requests(ctx, side, codes):
             for a in rng.sample([35, 40, 45, 50, 55, 60, 65, 70, 75, 80], 2):
                 for k in range(0, km + 1, 1 if km < 60000 else 16):
                     out.append((row.gender, row.event, k, a, False, k / 100.0))
+        # exact-product hazard: marks whose age-adjusted value k*f is a whole number of hundredths
+        for g_tab in (ages_tab.get(row.gender.lower(), {}),):
+            fr = athlon_row_for(g_tab, row.event)
+            if fr is None: continue
+            for bi, f in enumerate(fr):
+                fN = int(Fraction(f) * 10000)
+                if fN <= 0: continue
+                import math as _m
+                step = 10000 // _m.gcd(fN, 10000)
+                cand = list(range(step, km + 1, step))
+                if len(cand) > 400: cand = rng.sample(cand, 400)
+                age = ages_list[bi + 1] if bi + 1 < len(ages_list) else None
+                if age is None: continue
+                for k in cand:
+                    out.append((row.gender, row.event, k, age + rng.randrange(0, 5), False, k / 100.0))
         if row.key() == 'M-800':
             for k in (ks if quick else range(0, km + 1)):
                 out.append((row.gender, row.event, k, None, True, k / 100.0))
@@ -67,7 +83,16 @@ def requests(ctx, side, codes):
         for k in (0, 900, 1234, 1501, 2000, 650):
             for a in (None, 20, 40):
                 out.append((g, e, k, a, False, k / 100.0))
+    rng.shuffle(out)          # history independence: option / age / plain calls interleave in a seeded order
     return rows, out
+
+def athlon_row_for(tab, event):
+    ev = event.upper()
+    if ev.endswith('H') and ev not in ('LH', 'SH', '60H'):
+        try: n = int(ev[:-1])
+        except ValueError: return None
+        ev = 'SH' if n <= 110 else 'LH' if n >= 200 else None
+    return tab.get(ev) if ev else None
 
 def run(ctx):
     ctx.rule = ('(gender, event, mark k/100, age, esaa) over the 52 table rows: quick = every float-hazard mark (100*(k/100) != k), '
@@ -119,8 +144,9 @@ def run(ctx):
             ctx.oblig('correspondence:Lean Athlon.score vs Python exact oracle', 'correspondence', False,
                       '%r: oracle %s, Lean model %s, implementation %s' % (rq[:5], want, mo, im))
         else:
+            prev = [list(r[:5]) for r in reqs[max(0, i - 3):i]]
             ctx.fail('athlib.athlon_score', [g_, e, v, a, esaa], mo, im,
-                     note='age' if a else ('int-form' if isinstance(v, int) else 'float-form'),
+                     note=('age' if a else ('int-form' if isinstance(v, int) else 'float-form')) + '; preceding calls in this run: %r' % prev,
                      replay_py='result = athlib.athlon_score(%r, %r, %r, age=%r, esaa=%r)' % (g_, e, v, a, esaa))
     ctx.stats['disagreements'] = nd
     ctx.stats['nontrivial_lines'] = nont
